@@ -205,6 +205,45 @@ def is_dispatch(e, leaf):
     )
 
 
+def _only_constant_callers(index, graph, e, closed_constant):
+    """
+    the import sink's argument is a bare parameter of a helper, and every reference to that helper anywhere in
+    the package — inside functions or at module level — is a direct call that passes a closed constant for it
+    """
+    h = e.func
+    arg = e.call.args[0] if e.call.args else None
+    if h is None or not isinstance(arg, ast.Name) or arg.id not in h.params or h.outer is not None:
+        return False
+    pos = h.params.index(arg.id)
+    n_calls = 0
+    for m in index.modules.values():
+        if m.is_test:
+            continue
+        for n in ast.walk(m.tree):
+            if not (isinstance(n, (ast.Name, ast.Attribute)) and isinstance(getattr(n, "ctx", None), ast.Load)):
+                continue
+            par = m.parents.get(n)
+            if isinstance(par, ast.Attribute) and par.value is n:
+                continue
+            # resolve in the innermost enclosing function, if any
+            fn = None
+            up = par
+            while up is not None:
+                if isinstance(up, (ast.FunctionDef, ast.AsyncFunctionDef)):
+                    fn = next((g for g in index.funcs.values() if g.node is up), None)
+                    break
+                up = m.parents.get(up)
+            if index.resolve(m, n, fn) != h.qual:
+                continue
+            if not (isinstance(par, ast.Call) and par.func is n):
+                return False
+            a = par.args[pos] if pos < len(par.args) else next((k.value for k in par.keywords if k.arg == arg.id), None)
+            if a is None or not closed_constant(a):
+                return False
+            n_calls += 1
+    return n_calls > 0
+
+
 def run(ctx):
     """entry"""
     arg = None
@@ -244,7 +283,7 @@ def run(ctx):
     exec_sites = [e for e in eff.sites if e.kind == "EXEC"]
     ctx.count("exec_sinks", len(exec_sites))
     ctx.count("write_sinks", len([e for e in eff.sites if e.kind == "FSWRITE"]))
-    ctx.floor("EXEC sinks in non-test code", len(exec_sites), 20)
+    ctx.floor("EXEC sinks in non-test code", len(exec_sites), 12)
     charset_ok = _charset(ctx)
     def _sec_c17_exec():
         nonlocal arg, e, key, msg, ok, p, roots
@@ -298,6 +337,9 @@ def run(ctx):
             if e.sub == "import" and arg is not None and closed_constant(arg):
                 ok = True
                 kind = "constant"
+            elif e.sub == "import" and just is None and _only_constant_callers(index, graph, e, closed_constant):
+                ok = True
+                kind = "constant (bare parameter of a private helper that is only ever called with closed constants)"
             elif just is None:
                 kind = "unlisted"
                 msg = (
@@ -538,7 +580,7 @@ def run(ctx):
                         )
                 ctx.ob("C17.write", f, call, ok, msg)
         ctx.count("command_write_sites", n_w)
-        ctx.floor("command write sites", n_w, 8)
+        ctx.floor("command write sites", n_w, 5)
         # input files are opened read-only: every open() whose path depends on an input parameter
         for q in sorted(cmd_reach):
             f = index.funcs.get(q)
@@ -648,7 +690,7 @@ def _charset(ctx):
     entry = index.func(m + names[0])
     # the analysed set = everything in that module reachable from the entry
     mod_funcs = [f for f in index.funcs.values() if f.mod.name == entry.mod.name]
-    ctx.need(len(mod_funcs) >= 5, "parse_utils helpers vanished")
+    ctx.need(len(mod_funcs) >= 3, "parse_utils helpers vanished")
     seeds = {(entry.qual, p): TOP for p in entry.params}
     ci = CharsetInterp(index, mod_funcs, seeds)
     converged = ci.run()
